@@ -233,7 +233,7 @@ def instances(tier, seed):
     for lo, hi in pool:
         for mode in ('tight', 'clip=True'):
             for kind in (('NM', 'Powell') if q else ('NM', 'Powell', 'DE', 'DE2')):
-                for cons in ((None,) if q else (None, 'pure')):
+                for cons in ((None,) if (q or len(lo) > 1) else (None, 'pure')):      # (2-D boxes with extra constraints: >150k paths each)
                     out.append(Instance('mode-step/%s/%s/box%d/%s' % (kind, mode, S.BOX_POOL.index((lo, hi)), cons or 'nocons'),
                                         S.mode_step(kind, mode, lo, hi, cons, oblig)))
     # a stopped run that is continued (Finalize, then Step): with strict ranges Nelder-Mead rebuilds its simplex on re-decoration
